@@ -2,7 +2,7 @@
 # benigntest.sh <patch.diff> [Cxx ...]: apply a behaviour-preserving patch to /repo, run the quick checks
 # (all 20 by default), undo the patch.  Prints one line per check that did not say OK.  Exit 1 on any alarm.
 cd "$(dirname "$0")/.."
-p=$1; shift
+p=$(realpath "$1"); shift
 props=${@:-$(seq -f "C%02g" 1 20)}
 git -C /repo status --short | grep -q . && { echo "repo not clean"; exit 2; }
 git -C /repo apply "$p" || { echo "patch does not apply"; exit 2; }
